@@ -633,10 +633,15 @@ func actionsOf(p *workflow.Plan) []*workflow.Action {
 	return out
 }
 
-func TestC18(t *testing.T) {
-	vprop.Run(t, vprop.Spec[Case]{
+func c18Spec() vprop.Spec[Case] {
+	return vprop.Spec[Case]{
 		ID:    "C18",
 		Gen:   func(t *rapid.T) Case { return genCase(t) },
 		Check: checkClone,
-	})
+	}
 }
+
+func TestC18(t *testing.T) { vprop.Run(t, c18Spec()) }
+
+// FuzzC18 is the byte-driven arm (thorough tier), see vprop.Fuzz.
+func FuzzC18(f *testing.F) { vprop.Fuzz(f, c18Spec()) }
